@@ -531,12 +531,20 @@ def check_image(img, sc, plan, allowed_refs, must_have, files_allowed, model,
                             f"lock file: {e}"))
         except BaseException as e:  # noqa: BLE001
             out.append(("followup-op-failed", f"{type(e).__name__}: {e}"))
-        if plan.get("redo") and plan["op"] in REDO_OPS and not locks:
+        if plan.get("redo") and plan["op"] in REDO_OPS:
             stats["probe:operation_retried_on_crash_image"] = 1
             try:
                 run_op(plan["op"], r, sc, plan)
+            except FileLocked as e:
+                # a lock the dead process left: refusing is fine, claiming
+                # success without storing anything is not (below)
+                if not locks:
+                    out.append(("retry-failed", f"FileLocked: {e}"))
+                else:
+                    stats["probe:retry_refused_by_stale_lock"] = 1
             except BaseException as e:  # noqa: BLE001
-                out.append(("retry-failed", f"{type(e).__name__}: {e}"))
+                if not locks:
+                    out.append(("retry-failed", f"{type(e).__name__}: {e}"))
             else:
                 # it reported success: what it delivers is there
                 probs = []
